@@ -244,3 +244,61 @@ mut('C06', 'gpu-separate-kernel', 'wave_sim.py', '_wave_eval_gpu = cuda.jit(_wav
 mut('C06', 'gpu-assign-threshold', 'wave_sim.py', '    else:\n        c[c_loc, x] = TMIN\n        c[c_loc+1, x] = TMAX\n    c[c_loc+2, x] = TMAX', '    else:\n        c[c_loc, x] = ttime\n        c[c_loc+1, x] = TMAX\n    c[c_loc+2, x] = TMAX', 'C06.stimulus')
 mut('C06', 'seed-lane-mix-cpu', 'wave_sim.py', '    w = c[c_loc:c_loc+c_len, vector]', '    w = c[c_loc:c_loc+c_len, vector - vector % 2]', 'C06.lane')
 neutral('C06', 'n-gpu-seed-term', 'wave_sim.py', '            seed = (seed << 4) + (vector << 20) + (y << 1)', '            seed = (seed << 4) + (vector << 20) + (y << 1)  # differs from cpu on purpose')
+
+# ------------------------------------------------------------------ C14
+mut('C14', 'sdf-dict-collapse', 'sdf.py', '        cells = dict()\n        for cell_name, entries in (t for t in args if isinstance(t, tuple)):\n            cells.setdefault(cell_name, []).extend(entries)  # a file may have several CELL blocks per instance\n', '        cells = dict(t for t in args if isinstance(t, tuple))\n', 'C14.accumulate')
+mut('C14', 'sdf-loop-overwrite', 'sdf.py', '            cells.setdefault(cell_name, []).extend(entries)  # a file may have several CELL blocks per instance', '            cells[cell_name] = entries', 'C14.accumulate')
+mut('C14', 'polarity-swapped', 'sdf.py', "if i_pin_spec.startswith('(posedge '): i_pol_idxs = [0]\n                    elif i_pin_spec.startswith('(negedge '): i_pol_idxs = [1]", "if i_pin_spec.startswith('(posedge '): i_pol_idxs = [1]\n                    elif i_pin_spec.startswith('(negedge '): i_pol_idxs = [0]", 'C14.polarity')
+mut('C14', 'rise-fall-order', 'sdf.py', "IOPath = namedtuple('IOPath', ['ipin', 'opin', 'r', 'f'])", "IOPath = namedtuple('IOPath', ['ipin', 'opin', 'f', 'r'])", 'C14.triple')
+mut('C14', 'single-list-not-duplicated', 'sdf.py', '    if len(args) == 3: args.append(args[2])\n', '    if len(args) == 3: args.append([])\n', 'C14.triple')
+mut('C14', 'empty-triple-differs', 'sdf.py', '            delvals = [d if len(d) > 0 else [0, 0, 0] for d in delvals]', '            delvals = [d if len(d) > 0 else [0, 0] for d in delvals]', 'C14.triple')
+mut('C14', 'dataset-axis', 'sdf.py', '            delays[line, :] = delvals\n\n        return np.moveaxis(delays, -1, 0)', '            delays[line, :] = delvals\n\n        return np.moveaxis(delays, -1, 1)', 'C14.shape')
+mut('C14', 'iopath-output-pin', 'sdf.py', 'if line := cell.ins[tlib.pin_index(cell.kind, i_pin_spec)]:', 'if line := cell.ins[tlib.pin_index(cell.kind, o_pin_spec)]:', 'C14.pin')
+mut('C14', 'interconnect-wrong-fork', 'sdf.py', '                assert f1.outs[f2.ins[0].driver_pin] == f2.ins[0]\n                line = f2.ins[0]', '                assert f1.outs[f2.ins[0].driver_pin] == f2.ins[0]\n                line = f1.ins[0]', 'C14.pin')
+mut('C14', 'grammar-instance-dropped', 'sdf.py', '        | "(INSTANCE" ID? ")"', '        | "(INSTANCE" _NOB? ")"', ['C14.shape-of-entries', 'C14.grammar', 'C14.accumulate'])
+mut('C14', 'triple-callback-renamed', 'sdf.py', '    def triple(args): return', '    def triples(args): return', 'C14.grammar')
+neutral('C14', 'n-accumulate-defaultdict-style', 'sdf.py', '            cells.setdefault(cell_name, []).extend(entries)  # a file may have several CELL blocks per instance', '            if cell_name not in cells: cells[cell_name] = []\n            cells[cell_name] += entries')
+
+# ------------------------------------------------------------------ C15
+mut('C15', 'alias-h-is-zero', 'logic.py', "    if value in [0, '0', False, 'L', 'l']: return ZERO\n    if value in [1, '1', True, 'H', 'h']: return ONE", "    if value in [0, '0', False, 'L', 'l', 'h']: return ZERO\n    if value in [1, '1', True, 'H']: return ONE", 'C15.chars')
+mut('C15', 'render-rf-swapped', 'logic.py', "[*'0X-1PRFN']", "[*'0X-1PFRN']", 'C15.chars')
+mut('C15', 'np-removed-attr', 'logic.py', "dtype=np.str_)", "dtype=np.unicode_)", 'C15.npattr')
+mut('C15', 'np-bool8', '__init__.py', "_pop_count_lut = np.asarray([bin(x).count('1') for x in range(256)])", "_pop_count_lut = np.asarray([bin(x).count('1') for x in range(256)], dtype=np.int0)", ['C15.npattr', 'C15.bitorder'])
+mut('C15', 'bitorder-big-one-site', 'logic.py', "return packbits(np.unpackbits(bpa, axis=-1, bitorder='little').swapaxes(-1,-2))", "return packbits(np.unpackbits(bpa, axis=-1, bitorder='big').swapaxes(-1,-2))", 'C15.bitorder')
+mut('C15', 'two-planes', 'logic.py', "unpackbits(mva)[...,:3]", "unpackbits(mva)[...,:2]", 'C15.bitorder')
+mut('C15', 'mvarray-no-swap', 'logic.py', '    if mva.shape[-2] > 1: return mva.swapaxes(-1, -2)\n', '    if mva.shape[-2] > 1: return mva\n', 'C15.bitorder')
+mut('C15', 'default-unassigned', 'logic.py', "    if value in ['N', 'n', 'v']: return NPULSE\n    return UNKNOWN", "    if value in ['N', 'n', 'v']: return NPULSE\n    return UNASSIGNED", 'C15.chars')
+mut('C15', 'signed-pad-zero', 'logic.py', "a = np.pad(a, p, 'edge') if dtype.name[0] == 'i' else np.pad(a, p, 'constant', constant_values=0)", "a = np.pad(a, p, 'constant', constant_values=0)", 'C15.bitorder')
+neutral('C15', 'n-alias-order', 'logic.py', "    if value in ['R', 'r', '/']: return RISE", "    if value in ['/', 'r', 'R']: return RISE")
+
+# ------------------------------------------------------------------ C18
+mut('C18', 'own-interface-order', 'stil.py', '        interface = c.s_nodes\n', "        interface = list(c.io_nodes) + [n for n in c.nodes if 'DFF' in n.kind]\n", 'C18.order')
+mut('C18', 'scanmap-forward', 'stil.py', '            for n in reversed(chain[1:-1]):', '            for n in chain[1:-1]:', 'C18.chain')
+mut('C18', 'scan-in-not-reversed', 'stil.py', '            scan_in_inversion = list(reversed(scan_in_inversion))\n', '', 'C18.chain')
+mut('C18', 'inversion-carried-over', 'stil.py', '            scan_in_inversion = list(reversed(scan_in_inversion))\n            inversion = False\n', '            scan_in_inversion = list(reversed(scan_in_inversion))\n', 'C18.chain')
+mut('C18', 'so-inversion-is-si', 'stil.py', 'scan_inversions[chain[-1]] = logic.mvarray(scan_out_inversion)[0]', 'scan_inversions[chain[-1]] = logic.mvarray(scan_in_inversion)[0]', 'C18.chain')
+mut('C18', 'loc-load-diverges', 'stil.py', '                np.bitwise_xor(pattern, inversions, out=pattern)\n                init[scan_maps[si_port], i] = pattern', '                init[scan_maps[si_port], i] = pattern', 'C18.twins')
+mut('C18', 'responses-wrong-map', 'stil.py', 'resp[scan_maps[so_port], i] = pattern', 'resp[scan_maps[so_port][::-1], i] = pattern', 'C18.twins')
+mut('C18', 'transition-swapped', 'logic.py', '    out[...] = (init & 0b010) | (final & 0b001)', '    out[...] = (final & 0b010) | (init & 0b001)', 'C18.transition')
+mut('C18', 'transition-no-unassigned', 'logic.py', '    np.putmask(out, unknown, UNKNOWN)\n    np.putmask(out, unassigned, UNASSIGNED)\n    return out', '    np.putmask(out, unassigned, UNASSIGNED)\n    np.putmask(out, unknown, UNKNOWN)\n    return out', 'C18.transition')
+mut('C18', 'grammar-bang-filtered', 'stil.py', 'scan_cells: "ScanCells" (quoted | /!/)* ";"', 'scan_cells: "ScanCells" (quoted | "!")* ";"', 'C18.grammar')
+mut('C18', 'si-port-last', 'stil.py', 'self.si_ports = dict((v[0], k) for k, v in scan_chains.items())', 'self.si_ports = dict((v[-1], k) for k, v in scan_chains.items())', 'C18.chain')
+mut('C18', 'pi-through-po-map', 'stil.py', "            tests[pi_map, i] = logic.mvarray(p.capture['_pi'])", "            tests[po_map, i] = logic.mvarray(p.capture['_pi'])", 'C18.twins', edits=[dict(old="        interface, pi_map, _, scan_maps, scan_inversions = self._maps(circuit)\n        tests =", new="        interface, pi_map, po_map, scan_maps, scan_inversions = self._maps(circuit)\n        tests ="), dict(old="            tests[pi_map, i] = logic.mvarray(p.capture['_pi'])", new="            tests[po_map, i] = logic.mvarray(p.capture['_pi'])")])
+neutral('C18', 'n-interface-list', 'stil.py', '        interface = c.s_nodes\n', '        interface = list(c.s_nodes)\n')
+
+# ------------------------------------------------------------------ C20
+mut('C20', 'wires-int-none', 'def_file.py', '(int(dw.width) if dw.width is not None else None, dw.wire_points)', '(int(dw.width), dw.wire_points)', 'C20.none')
+mut('C20', 'routed-not-initialised', 'def_file.py', '        self.pins = []\n        self.routed = []\n', '        self.pins = []\n', ['C20.none', 'C20.options'])
+mut('C20', 'wirepoints-unresolved', 'def_file.py', '            pts.append((prev[0] if p[0] is None else p[0], prev[1] if p[1] is None else p[1]) + tuple(p[2:]))  # if None, keep previous value', '            pts.append(p)', 'C20.none')
+mut('C20', 'vias-y-uses-x', 'def_file.py', 'loc = (loc[0] if p[0] is None else p[0], loc[1] if p[1] is None else p[1])  # if None, keep previous value', 'loc = (loc[0] if p[0] is None else p[0], loc[1] if p[0] is None else p[1])  # if None, keep previous value', 'C20.symmetry')
+mut('C20', 'array-step-swapped', 'def_file.py', "(loc[0] + x*x_sp, loc[1] + y*y_sp, 'N')", "(loc[0] + x*y_sp, loc[1] + y*x_sp, 'N')", 'C20.symmetry')
+mut('C20', 'array-square', 'def_file.py', 'for x in range(x_cnt) for y in range(y_cnt)]', 'for x in range(x_cnt) for y in range(x_cnt)]', 'C20.symmetry')
+mut('C20', 'row-origin-shifted', 'def_file.py', '(int(args[3]), int(args[4])),  # origin x/y', '(int(args[2]), int(args[3])),  # origin x/y', ['C20.positions', 'C20.grammar'])
+mut('C20', 'grammar-keyword-renamed', 'def_file.py', '            | "+" /PLACED/ point ID', '            | "+" /FIXED/ point ID', 'C20.options')
+mut('C20', 'grammar-comp-extra-token', 'def_file.py', 'comp_stmt: "-" ID ID "+" "PLACED" point ID ";"', 'comp_stmt: "-" ID ID "+" /PLACED/ point ID ";"', ['C20.positions', 'C20.grammar'])
+mut('C20', 'tracks-extra-child', 'def_file.py', '| /TRACKS/ /[XY]/ NUMBER "DO" NUMBER "STEP" NUMBER "LAYER" ID ";"', '| /TRACKS/ /[XY]/ NUMBER /DO/ NUMBER "STEP" NUMBER "LAYER" ID ";"', ['C20.positions', 'C20.grammar'])
+mut('C20', 'nets-into-specialnets', 'def_file.py', '        self.def_file.nets[dnet.name] = dnet', '        self.def_file.specialnets[dnet.name] = dnet', ['C20.positions', 'C20.twins'])
+mut('C20', 'wire-layer-wrong-child', 'def_file.py', "    def wire(self, args):\n        wire = DefWire()\n        wire.layer = args[0].value", "    def wire(self, args):\n        wire = DefWire()\n        wire.layer = args[1].value", ['C20.twins', 'C20.grammar'])
+mut('C20', 'callback-renamed', 'def_file.py', '    def net_pin(self, args):', '    def netpin(self, args):', 'C20.grammar')
+mut('C20', 'points-via-index', 'def_file.py', "        if len(args) == 1: return args[0].value, 'N'\n        else: return args[0].value, args[1].value.strip()", "        return args[0].value, args[1].value.strip()", ['C20.grammar', 'C20.twins'])
+neutral('C20', 'n-wires-loop-form', 'def_file.py', '        [vv[vtype].extend(locs) for dw in self.routed for vtype, locs in dw.vias.items()]\n        return vv', '        [vv[vtype].extend(locs) for dw in self.routed for vtype, locs in dw.vias.items()]\n        # aggregated per via type\n        return vv')
